@@ -10,8 +10,11 @@ are run to completion in index order.
 
 * no yield while the thread executes module-level code (``<module>`` frame of any file on its
   stack: an import is in progress and the import lock may be held);
-* a watchdog (per step and per execution) turns a stuck execution into ``status ==
-  "inconclusive"``: the workers are released from the scheduler, joined, and nothing is scored;
+* the running thread counts its own yield points and parks only when its run length is used up, so
+  the controller is woken once per segment, not once per yield point;
+* a watchdog (per segment and per execution) turns a stuck execution into ``status ==
+  "inconclusive"``: the workers are released from the scheduler, joined, and nothing is scored
+  (never a violation);
 * *windows*: frames in which pandera has a temporary override of shared state installed (between
   override and restore).  The scheduler records, for every preemption, the windows the preempted
   thread is inside; the property module uses that for its non-triviality rule;
